@@ -135,10 +135,10 @@ type namedResult struct {
 
 func RunCheck(opts CheckOpts) int {
 	t0 := time.Now()
-	timeout := 20
+	timeout := 60 // generous: an obligation that times out is reported as a violation, and a loaded machine must not cause one
 	needTwo := false
 	if opts.Tier == "thorough" {
-		timeout, needTwo = 120, true
+		timeout, needTwo = 240, true
 		thoroughTier = true
 	}
 	if t := os.Getenv("GOVC_TIMEOUT"); t != "" {
